@@ -155,8 +155,8 @@ func fieldPath(fieldDescs protoreflect.FieldDescriptors, names ...string) []prot
 		// advance
 		if i != len(fds)-1 {
 			msgDesc := fd.Message()
-			if msgDesc == nil {
-				return nil
+			if msgDesc == nil || fd.IsList() || fd.IsMap() {
+				return nil // only singular messages can be traversed
 			}
 			fieldDescs = msgDesc.Fields()
 		}
